@@ -133,6 +133,41 @@ def check_translation(idx, run):
                     f"-1, so equal(mod(2*i+1,2), 1) answers True",
                     loc(mod, call))
     run.floor("SymPy symbol creations", nsym, 2)
+    # SymPy identifies functions / symbols by name: two different Fortran
+    # entities must get different SymPy names, i.e. the name given to the
+    # SymPy object is the clash-free key under which it is stored
+    nmap = 0
+    for fn in cls.methods.values():
+        news = {}
+        for a in ast.walk(fn):
+            if isinstance(a, ast.Assign) and isinstance(a.targets[0],
+                                                        ast.Name) and \
+                    isinstance(a.value, ast.Call) and \
+                    ast.unparse(a.value.func).endswith("new_symbol") and \
+                    a.value.args:
+                news[a.targets[0].id] = ast.unparse(a.value.args[0])
+        for a in ast.walk(fn):
+            if not (isinstance(a, ast.Assign) and isinstance(
+                    a.targets[0], ast.Subscript) and
+                    ast.unparse(a.targets[0].value) ==
+                    "self._sympy_type_map" and
+                    isinstance(a.value, ast.Call) and a.value.args):
+                continue
+            nmap += 1
+            key = ast.unparse(a.targets[0].slice)
+            name = ast.unparse(a.value.args[0])
+            okn = name == key or "to_language()" in name
+            if key.endswith(".name") and key[:-5] in news:
+                okn = okn or news[key[:-5]] == name
+            run.check(
+                "C17.R1", okn, f"SymPyWriter.{fn.name}",
+                f"SymPy object stored under '{key}' is named like its key",
+                f"the SymPy object stored under the clash-free key '{key}' "
+                f"is created with the name '{name}': an array component "
+                f"a%c(i) and an ordinary array a_c(i) then become the same "
+                f"SymPy function, so equal('a%c(i)', 'a_c(i)') answers True",
+                loc(mod, a))
+    run.floor("type-map entries", nmap, 3)
     # unknown intrinsics stay opaque: the intrinsic handler renames only
     # names in the table and otherwise falls back to the generic call
     ic = cls.methods.get("intrinsiccall_node")
